@@ -402,3 +402,131 @@ def rule_axiskey(ctx) -> RuleResult:
     if n < 6:
         raise AnalysisError(f"R-AXISKEY: only {n} uses of split_every found")
     return res
+
+
+# ---------------------------------------------------------------------------------------------
+# R-CONTIG (C03): the hand-written reduction tree brackets *adjacent* blocks, in block order.
+# The combine step is associative but not commutative (first/last, arg-reductions on ties, concatenation order in the
+# grouped combine), so re-bracketing is value-preserving only if every tree node covers a contiguous, ascending run of blocks.
+_CONTIG_PARTITIONERS = {"partition_all", "toolz.partition_all", "tlz.partition_all", "partition", "np.array_split", "np.split"}
+
+
+def _range_is_contiguous(c: ast.Call) -> bool | None:
+    """range(n) / range(a, b) / range(a, b, 1) -> True; range(a, b, k) -> False"""
+    if norm(c.func) != "range":
+        return None
+    if len(c.args) <= 2:
+        return True
+    st = c.args[2]
+    return isinstance(st, ast.Constant) and st.value == 1
+
+
+def _strided_evidence(e: ast.AST) -> str | None:
+    """a construct inside a *part* expression that makes the part non-contiguous or not ascending"""
+    for n in ast.walk(e):
+        if isinstance(n, ast.Call):
+            fn = norm(n.func)
+            if fn == "range" and _range_is_contiguous(n) is False:
+                return f"strided range '{norm(n)}'"
+            if fn in ("reversed", "set", "frozenset", "random.sample", "random.shuffle", "np.random.permutation", "interleave", "toolz.interleave"):
+                return f"'{norm(n)[:50]}' reorders / unorders the block ids"
+            if fn == "sorted" and (len(n.args) > 1 or n.keywords):
+                return f"'{norm(n)[:50]}' reorders the block ids"
+        if isinstance(n, ast.Subscript) and isinstance(n.slice, ast.Slice) and n.slice.step is not None:
+            st = n.slice.step
+            if not (isinstance(st, ast.Constant) and st.value in (1, None)):
+                return f"strided slice '{norm(n)}'"
+    return None
+
+
+def _part_exprs(ctx, f, e: ast.AST, depth=0):
+    """yield (function, expression, is_element) for the expressions that build the block partition of one axis"""
+    if isinstance(e, (ast.ListComp, ast.GeneratorExp)):
+        yield f, e.elt, True
+        return
+    if isinstance(e, ast.Call):
+        fn = norm(e.func)
+        if fn in ("list", "tuple") and e.args:
+            yield from _part_exprs(ctx, f, e.args[0], depth)
+            return
+        if fn in _CONTIG_PARTITIONERS:
+            yield f, e, False
+            return
+        callee = ctx.prog.funcs.get(f"{f.unit.name}.{fn}") if isinstance(e.func, ast.Name) else None
+        if callee is not None and depth < 3:
+            for r in walk_own(callee.node):
+                if isinstance(r, ast.Return) and r.value is not None:
+                    yield from _part_exprs(ctx, callee, r.value, depth + 1)
+                elif isinstance(r, (ast.Yield,)) and r.value is not None:
+                    yield callee, r.value, True
+            return
+    if isinstance(e, ast.Name):
+        for a in walk_own(f.node):
+            if isinstance(a, ast.Assign) and len(a.targets) == 1 and isinstance(a.targets[0], ast.Name) and a.targets[0].id == e.id:
+                yield from _part_exprs(ctx, f, a.value, depth)
+            elif isinstance(a, ast.Expr) and isinstance(a.value, ast.Call) and isinstance(a.value.func, ast.Attribute) \
+                    and a.value.func.attr == "append" and isinstance(a.value.func.value, ast.Name) and a.value.func.value.id == e.id and a.value.args:
+                yield f, a.value.args[0], True
+        return
+    yield f, e, False
+
+
+def rule_contig(ctx) -> RuleResult:
+    res = RuleResult("R-CONTIG", "every node of the hand-written reduction tree combines a contiguous, ascending run of blocks", min_instances=3)
+    prog = ctx.prog
+    gp = prog.func("dask_array_ops.get_parts")
+    rets = [n for n in walk_own(gp.node) if isinstance(n, ast.Return) and isinstance(n.value, ast.Tuple) and len(n.value.elts) == 3]
+    if not rets:
+        raise AnalysisError("dask_array_ops.get_parts: no 'return keys, parts, out_chunks'")
+    parts_e = rets[0].value.elts[1]
+    # per-axis partition expression: the element of the list built over the axes
+    per_axis = []
+    for a in walk_own(gp.node):
+        if isinstance(a, ast.Assign) and isinstance(parts_e, ast.Name) and any(isinstance(t, ast.Name) and t.id == parts_e.id for t in a.targets):
+            v = a.value
+            per_axis.append(v.elt if isinstance(v, (ast.ListComp, ast.GeneratorExp)) else v)
+    if not per_axis:
+        raise AnalysisError("dask_array_ops.get_parts: cannot find the definition of the per-axis block partition")
+    for pa in per_axis:
+        for f, e, is_elt in _part_exprs(ctx, gp, pa):
+            ev = _strided_evidence(e)
+            if isinstance(e, ast.Call) and norm(e.func) in _CONTIG_PARTITIONERS:
+                verdict = "contiguous partitioner" if ev is None else ev
+            elif ev is None:
+                verdict = "no stride / reordering in the part expression" if is_elt else "UNDECIDED (unrecognised partitioner)"
+            else:
+                verdict = ev
+            res.inst(f"{f.qualname}: block partition '{norm(e)[:70]}': {verdict}", f"{f.qualname}|{norm(e)[:60]}")
+            if ev is not None:
+                res.report(f"{f.qualname}|non-contiguous-parts", f"flox/{f.unit.name}.py:{e.lineno}", f.qualname,
+                           f"the blocks combined by one tree node are not a contiguous ascending run: {ev}. The combine step is associative but "
+                           "not commutative (first/last, arg-reductions, concatenation order of the grouped combine): the result would depend on split_every")
+            elif verdict.startswith("UNDECIDED"):
+                res.notes.append(f"UNDECIDED {f.qualname}: '{norm(e)[:80]}' is not a recognised partitioner; contiguity not established")
+    # keys are paired with parts positionally: both are products over the same axis order
+    pr = prog.func("dask_array_ops.partial_reduce")
+    for loop in walk_own(pr.node):
+        if isinstance(loop, ast.For) and isinstance(loop.iter, ast.Call) and norm(loop.iter.func) == "zip" and len(loop.iter.args) == 2:
+            k_e, p_e = loop.iter.args
+            ok_p = isinstance(p_e, ast.Call) and norm(p_e.func) in ("product", "itertools.product") and len(p_e.args) == 1 \
+                and isinstance(p_e.args[0], ast.Starred) and isinstance(p_e.args[0].value, ast.Name)
+            res.inst(f"partial_reduce: keys zipped with {norm(p_e)[:40]} ({'plain product over the parts' if ok_p else 'not a plain product'})", "zip")
+            if not ok_p:
+                ev = _strided_evidence(p_e)
+                if ev or (isinstance(p_e, ast.Call) and any(norm(x.func) in ("reversed", "sorted") for x in ast.walk(p_e) if isinstance(x, ast.Call))):
+                    res.report("dask_array_ops.partial_reduce|key-part-pairing", pr.where(loop), pr.qualname,
+                               f"output keys are paired with '{norm(p_e)[:60]}', which is not the plain axis-order product of the parts: "
+                               "partial results land under the wrong output block")
+    # in get_parts: keys = product over range(len(part)) in the same axis order
+    keys_e = rets[0].value.elts[0]
+    if isinstance(keys_e, ast.Name) and isinstance(parts_e, ast.Name):
+        for a in walk_own(gp.node):
+            if isinstance(a, ast.Assign) and any(isinstance(t, ast.Name) and t.id == keys_e.id for t in a.targets):
+                txt = norm(a.value)
+                uses_parts = parts_e.id in names_in(a.value)
+                rev = any(isinstance(x, ast.Call) and norm(x.func) in ("reversed", "sorted") for x in ast.walk(a.value)) or "[::-1]" in txt
+                res.inst(f"get_parts: keys = {txt[:70]} (over '{parts_e.id}': {uses_parts}, reordered: {rev})", "keys")
+                if uses_parts and rev:
+                    res.report("dask_array_ops.get_parts|key-order", gp.where(a), gp.qualname,
+                               f"output keys '{txt[:60]}' enumerate the parts in a different axis order than product(*{parts_e.id})")
+    return res
